@@ -134,6 +134,26 @@ Fixpoint script (l : list (meth * resp)) (m : meth) (a : arg) : resp :=
 
 (* c_texts: every URI string of the case with the scheme urllib.parse.urlparse gave for it
    (the oracle behind the scheme ids); checked against the transcription Scheme.scheme_of *)
+(* a well-behaved backend: answers exactly the URIs it was asked about (a dict comprehension
+   over the argument, so duplicates collapse), each with the same entries *)
+Fixpoint uniq_uris (l : list uri) : list uri :=
+  match l with
+  | [] => []
+  | u :: r => u :: filter (fun v => negb (uri_eqb v u)) (uniq_uris r)
+  end.
+
+Definition echo (c : cls) (ids : list Z) (a : arg) : resp :=
+  match a with
+  | AUris us => RMap (map (fun u => (u, MList (map (fun i => EObj c i true) ids))) (uniq_uris us))
+  | _ => RNone
+  end.
+
+Fixpoint escript (e : list (meth * cls * list Z)) (l : list (meth * resp)) (m : meth) (a : arg) : resp :=
+  match e with
+  | [] => script l m a
+  | (m', c, ids) :: t => if meth_eqb m m' then echo c ids a else escript t l m a
+  end.
+
 Record case := mkCase {
   c_backends : list backend;
   c_mixer : option mixer;
